@@ -45,6 +45,8 @@ WRAPPERS = {
     "letap": "let\n  u.k = 1;\n  w = 3;\nin\n%s",  # a let layer holding an attrpath binding
     "letset": "let\n  u = {\n    k = 1;\n  };\nin\n%s",  # a let layer whose binding is a set
     "let2c": "let\n  u = 1;\nin\n# between\nlet\n  u = 2;\n  w = 3;\nin\n# before body\n%s",  # trivia between layers
+    "letinh": "let\n  inherit (p) l;\n  u = 1;\nin\n%s",  # a let layer holding an inherit next to a binding
+    "letinh0": "let\n  inherit (p) l;\nin\n%s",  # a let layer made of an inherit only
 }
 
 
@@ -64,13 +66,15 @@ BODY_SIMPLER = {
     "split": ["attrpath", "inline", "empty"],
     "ml_inline_nested": ["nested", "inline", "empty"],
 }
-WRAPPER_SIMPLER = {"let2": ["let1"], "lamf": ["lam"], "letap": ["let1"], "let2c": ["let2"], "letset": ["let1"]}
+WRAPPER_SIMPLER = {"let2": ["let1"], "lamf": ["lam"], "letap": ["let1"], "let2c": ["let2"], "letset": ["let1"], "letinh": ["let1", "letinh0"]}
 
 
 def op_reductions(op):
     """Simpler operations: the plainest value."""
     if op[0] == "set" and op[2] != "9":
         yield ("set", op[1], "9")
+    if op[1] in ("@a", "@@a"):  # a scoped name that also exists in the body -> a scoped name that exists nowhere
+        yield (op[0], op[1].replace("a", "z"), op[2])
 
 
 @dataclasses.dataclass(frozen=True)
@@ -123,7 +127,7 @@ PATHS = [
     "@u", "@z", "@@u", "@@@u", "@w", "@u.k", "@@z",
     "", "a..b", "a.", '"x', "@", "1x", 'a"b"', '"a\\',
 ]
-VALUES = ["9", '"s"', "{ k = 1; }", "[ 1 2 ]", "u", "", "1;", "{", "# c\n", "1 # c"]
+VALUES = ["9", '"s"', "{ k = 1; }", "[ 1 2 ]", "u", "", "1;", "{", "# c\n", "1 # c", "# c\n9"]
 SMALL_PATHS = ["a", "b", "d", "z", "a.b", "a.c", "a.z", "d.e", "@u", "@z", "@@u", "", "a."]
 SMALL_VALUES = ["9", "{ k = 1; }", "{"]
 
